@@ -209,12 +209,9 @@ class TokenTree:
         :param token: the token to append to the chain.
         """
         self._append(token)
-        retry_token = None
-        for lost_token in self.unchained:
-            if lost_token.previous_token_hash == token.get_hash():
-                retry_token = lost_token
-                break
-        if retry_token is not None:
+        retry_tokens = [lost_token for lost_token in self.unchained
+                        if lost_token.previous_token_hash == token.get_hash()]
+        for retry_token in retry_tokens:
             self.unchained.pop(retry_token)
             if self.gather_token(retry_token) is None:
                 self._logger.warning("Dropped illegal token %s!", retry_token)
